@@ -7,6 +7,7 @@ import (
 	"testing"
 
 	"connectrpc.com/vanguard"
+	"google.golang.org/protobuf/reflect/protoreflect"
 	"pgregory.net/rapid"
 )
 
@@ -35,7 +36,27 @@ func genHistoryAction(t *rapid.T, cfg *Config) Scenario {
 	sc := Scenario{Config: *cfg}
 	sc.Client = genClient(t, cfg, o)
 	sc.Backend = genBackend(t, &sc.Client, o)
-	switch rapid.IntRange(0, 9).Draw(t, "h_kind") {
+	k := rapid.IntRange(0, 11).Draw(t, "h_kind")
+	if k >= 10 && !(len(cfg.Protocols) == 1 && cfg.Protocols[0] == ProtoConnect && len(cfg.Codecs) == 1 && cfg.Codecs[0] == CodecProto) {
+		k = 0
+	}
+	switch k {
+	case 10, 11:
+		// un-enveloped proto backend, unary JSON client: the response exceeds the limit in its
+		// second Write, while what was buffered until then is a decodable message on its own
+		sc.Client = genClient(t, cfg, genOpts{forms: []string{FormConnectUnary, FormREST}, methods: []string{"Unary", "UnaryField", "UnaryMulti"}, maxBlob: 20, noText: true})
+		sc.Client.Codec = CodecJSON
+		sc.Client.Compression = ""
+		sc.Client.MsgRaw = nil
+		m := newMessage(msgAll)
+		fs := m.ProtoReflect().Descriptor().Fields()
+		n := rapid.IntRange(1500, 3500).Draw(t, "h_first_field")
+		m.ProtoReflect().Set(fs.ByName("string_value"), valueOfString(strings.Repeat("x", n)))
+		m.ProtoReflect().Set(fs.ByName("bytes_value"), protoreflect.ValueOfBytes([]byte(strings.Repeat("y", 4200))))
+		first := newMessage(msgAll)
+		first.ProtoReflect().Set(fs.ByName("string_value"), valueOfString(strings.Repeat("x", n)))
+		sc.Backend = Backend{Kind: "ok", Msgs: [][]byte{mustMarshal(m)}, MsgRaw: []bool{false}, WriteSplits: []int{len(mustMarshal(first))}, IgnoreReadErr: true, TrailerStyle: "declared", CloseBody: rapid.Bool().Draw(t, "h_close_body"), CloseAfterWrites: rapid.IntRange(0, 1).Draw(t, "h_close_after")}
+		sc.Note = "response_over_limit_decodable_prefix"
 	case 0, 1:
 		sc.Note = "valid"
 	case 2:
@@ -99,6 +120,9 @@ func genHistoryAction(t *rapid.T, cfg *Config) Scenario {
 func TestC15(t *testing.T) {
 	rapid.Check(t, func(t *rapid.T) {
 		cfg := genConfig(t, genOpts{noText: true})
+		if rapid.IntRange(0, 3).Draw(t, "unenveloped_proto_backend") == 0 {
+			cfg.Protocols, cfg.Codecs = []string{ProtoConnect}, []string{CodecProto}
+		}
 		cfg.MaxMsg = 4096
 		cfg.ViaDefaults = false
 		c := &histCase{Config: cfg}
@@ -158,9 +182,9 @@ func checkC15(c *histCase) *CheckResult {
 		}
 	}
 	res.Sample = map[string]any{"config": c.Config, "history_kinds": kinds, "history_len": len(c.History), "probe": clientTriple(&c.Probe.Client, nil) + " " + c.Probe.Client.Method}
-	for _, mode := range []string{"instrumented", "plain"} {
-		if mode == "instrumented" {
-			vanguard.VerifPoolEnable(true)
+	for _, mode := range []string{"instrumented", "instrumented-fifo", "plain"} {
+		if strings.HasPrefix(mode, "instrumented") {
+			vanguard.VerifPoolEnable(true, mode == "instrumented-fifo")
 		} else {
 			vanguard.VerifPoolDisable()
 		}
@@ -181,8 +205,8 @@ func checkC15(c *histCase) *CheckResult {
 			panicViolation(res, bout)
 			return res
 		}
-		if mode == "instrumented" {
-			vanguard.VerifPoolEnable(true) // forget the fresh run: empty free list
+		if strings.HasPrefix(mode, "instrumented") {
+			vanguard.VerifPoolEnable(true, mode == "instrumented-fifo") // forget the fresh run: empty free list
 		}
 		used, err := newSharedTranscoder(c.Config)
 		if err != nil {
@@ -198,7 +222,7 @@ func checkC15(c *histCase) *CheckResult {
 				panicViolation(res, hout)
 				return res
 			}
-			if mode == "instrumented" {
+			if strings.HasPrefix(mode, "instrumented") {
 				st := vanguard.VerifPoolSnapshot(true)
 				if st.DoublePuts > 0 {
 					res.violate("double_release", "c15:pool:double_put", "history step %d (%s): %d pooled buffer(s) released twice", i, h.Note, st.DoublePuts)
@@ -234,7 +258,7 @@ func checkC15(c *histCase) *CheckResult {
 			if base.backend != ob.backend {
 				res.violate("history_dependent", "c15:backend:"+mode, "[%s pool] after history step %d (%s) the backend of the probe observed a different request than on a fresh Transcoder", mode, i, h.Note)
 			}
-			if mode == "instrumented" {
+			if strings.HasPrefix(mode, "instrumented") {
 				st := vanguard.VerifPoolSnapshot(true)
 				if st.DoublePuts > 0 || st.LiveGets > 0 || st.PoisonBroken > 0 {
 					res.violate("pool_misuse", "c15:pool:probe", "probe after step %d (%s): double puts %d, live gets %d, broken poison %d", i, h.Note, st.DoublePuts, st.LiveGets, st.PoisonBroken)
